@@ -56,6 +56,10 @@ static std::vector<Case> make_cases(const Config &cfg) {
         { Case c = base(d); c.sender = std::string("s\0@x", 4); c.input = c.daemon == "qmtpd" ? qmtp_session(c.sender, rc, body) : qmqp_session(c.sender, rc, body); c.name = std::string(d) + " NUL-in-sender"; c.expect_class = 5; v.push_back(c); }
         for (const char *bad : {"x:", "12", "5:abc,", "99999999999999999999:", "0:,", "3:abc;", "-1:,", "200000001:"}) { Case c = base(d); c.input = std::string(bad) + c.input; c.name = std::string(d) + " malformed-frame[" + bad + "]"; c.expect_class = -1; c.wellformed = false; v.push_back(c); }
       }
+    } else if (fam == "faults") {
+      // one failing call (fork, pipe, exec, wait, read, write) or short read anywhere in the daemon or in its child before the exec
+      Case c = base(d); c.name = std::string(d) + " with one failing call"; c.expect_class = 40; v.push_back(c);
+      Case r = base(d); r.name = std::string(d) + " with one failing call, real qmail-queue"; r.realqueue = true; r.expect_class = 40; v.push_back(r);
     } else if (fam == "multi") {
       // several messages on one QMTP connection with a size limit: the limit applies to each message separately
       if (std::string(d) != "qmtpd") continue;
@@ -92,6 +96,23 @@ struct C07 : Scenario {
     std::map<int, int> fds; fds[0] = QmailEnv::preloaded_pipe(w, c->input); fds[1] = QmailEnv::sink(w, &out); fds[2] = QmailEnv::nullfd(w);
     dpid = w.spawn("/var/qmail/bin/qmail-" + c->daemon, {"qmail-" + c->daemon}, fds, UID_QMAILD, GID_NOFILES, "/", env);
   }
+  int faults_seen = 0;
+  void alternatives(World &w, Proc &p, const Req &r, std::vector<Alt> &a) override {
+    if (cfg.get("family", "status") != "faults" || w.ex->bound[BK_FAULT] <= 0) return;
+    bool daemon_side = p.vpid == dpid || (p.ppid == dpid && p.standin.empty() && p.name.find("qmail-queue") == std::string::npos);   // the daemon, or its child before the exec
+    if (!daemon_side) return;
+    switch (r.op) {
+      case VK_FORK: a.push_back({BK_FAULT, ALT_FAIL, EAGAIN}); break;
+      case VK_PIPE: a.push_back({BK_FAULT, ALT_FAIL, EMFILE}); break;
+      case VK_EXEC: a.push_back({BK_FAULT, ALT_FAIL, ENOENT}); a.push_back({BK_FAULT, ALT_FAIL, ENOMEM}); break;
+      /* waitpid() is not failed: it cannot fail for an existing child, and after a commit the daemon could then not know the outcome */
+      case VK_READ: { a.push_back({BK_FAULT, ALT_FAIL, EIO}); Ofd *o = w.O(p, r.a[0]); if (o && o->kind == K_PIPE_R && o->pipe->buf.size() > 1 && r.a[1] > 1) a.push_back({BK_FAULT, ALT_SHORT, 1}); break; }
+      case VK_WRITE: { Ofd *o = w.O(p, r.a[0]); if (o && o->kind == K_PIPE_W) { a.push_back({BK_FAULT, ALT_FAIL, EPIPE}); a.push_back({BK_FAULT, ALT_FAIL, EIO}); if (r.a[1] > 1) a.push_back({BK_FAULT, ALT_SHORT, 1}); } break; }
+      case VK_DUP2: a.push_back({BK_FAULT, ALT_FAIL, EMFILE}); break;
+      case VK_CHDIR: a.push_back({BK_FAULT, ALT_FAIL, EIO}); break;
+      default: break;
+    }
+  }
   static bool envelope_complete(const std::string &e) { size_t i = 0; if (e.empty() || e[0] != 'F') return false; size_t j = e.find('\0', i); if (j == std::string::npos) return false; i = j + 1; for (;;) { if (i >= e.size()) return false; if (e[i] == '\0') return i + 1 == e.size(); if (e[i] != 'T') return false; j = e.find('\0', i); if (j == std::string::npos) return false; i = j + 1; } }
   std::string script(World &, Proc &) override {
     std::string a; int v;
@@ -106,7 +127,7 @@ struct C07 : Scenario {
     return a;
   }
   void after_step(World &w, Proc &p, const Step &st) override {
-    (void) w;
+    (void) w; if (st.injected) faults_seen++;
     if (!p.standin.empty() && st.op == VK_READ && st.ret > 0 && st.data) { if (st.a[0] == 0) qmsg += *st.data; else if (st.a[0] == 1) qenv += *st.data; }
   }
   // parse the Received field at the start of msg; returns length or 0 if malformed
@@ -175,6 +196,9 @@ struct C07 : Scenario {
     if (c->expect_class == 4 && cls != 4) { w.soft_violation(key, c->name + ": expected a temporary refusal, got class " + std::to_string(cls) + " [" + esc(o, 200) + "]"); return; }
     if (c->expect_class == 5 && cls != 5) { w.soft_violation(key, c->name + ": expected a permanent refusal, got class " + std::to_string(cls) + " [" + esc(o, 200) + "]"); return; }
     if (c->expect_class == 45 && cls != 4 && cls != 5) { w.soft_violation(key, c->name + ": expected a refusal, got [" + esc(o, 200) + "]"); return; }
+    if (c->expect_class == 40 && !ack && cls == 5) { w.soft_violation(key + ":permanent-on-trouble", c->name + ": a failing system call (resource trouble) produced a permanent refusal [" + esc(o, 200) + "]; documented: temporary"); return; }
+    if (c->expect_class == 40 && faults_seen == 0 && !ack) { w.soft_violation(key, c->name + ": no fault injected, expected a positive acknowledgement, got [" + esc(o, 200) + "]"); return; }
+    if (c->expect_class == 40 && faults_seen) w.counters["runs_with_injected_fault"]++;
     if (c->expect_class == -1 && ack) { w.soft_violation(key, c->name + ": incomplete/malformed session acknowledged"); return; }
     w.counters[ack ? "acknowledged" : cls == 4 ? "refused_temporarily" : cls == 5 ? "refused_permanently" : "no_reply"]++;
     w.outcome_hash = fnvs(fnvs(5, c->name), o); w.description = c->name + " -> " + (ack ? "acknowledged" : "class " + std::to_string(cls)) + (committed ? ", committed" : "");
